@@ -57,9 +57,11 @@ fn producer(kind: usize, i: usize, text: &str, tabs: bool) -> String {
         2 => format!("/// @foo{i} unknown tag\nstruct M{i} {{}}\n"),
         3 => format!("/// @returns: nothing to return\ncustom I{i}\n"),
         // validation errors
+        4 if tabs => format!("struct T{i} {{\n{ind}tag(1) a: int32\t\t// tabs after the span\n}}\n"),
         4 => format!("struct T{i} {{\n{ind}tag(1) a: int32\n}}\n"),
         5 => format!("struct Y{i} {{\n{ind}tag(7) a: int32?\n{ind}/* é */ tag(7) b: string?\n}}\n"),
         6 => format!("enum V{i} : uint8 {{\n{ind}A = 1\n{ind}B = 1\n}}\n"),
+        7 if tabs => format!("enum W{i} : int8 {{\n{ind}A = 128\t, B\t// tabs after the span\n}}\n"),
         7 => format!("enum W{i} : int8 {{\n{ind}A = 128\n}}\n"),
         // multi-line span (the enumerator with its fields) and a note with span
         // (odd ones carry multi-byte text and a tab on the inner lines of the span)
@@ -71,6 +73,7 @@ fn producer(kind: usize, i: usize, text: &str, tabs: bool) -> String {
         11 if i % 2 == 1 => format!("interface K{i} {{\n{ind}op( /* ünï */\n{ind}{ind}a: stream int32 // 中文\n{ind}{ind}b: stream int32\n{ind}{ind}c: bool\n{ind})\n}}\n"),
         11 => format!("interface K{i} {{\n{ind}op(\n{ind}{ind}a: stream int32\n{ind}{ind}b: stream int32\n{ind}{ind}c: bool\n{ind})\n}}\n"),
         12 => format!("struct H{i} {{\n{ind}d: Dictionary<float32, int8>\n}}\n"),
+        13 if tabs => format!("  typealias Q{i}\t= int32?\t// tab inside and after\n"),
         13 => format!("typealias Q{i} = int32?\n"),
         14 => format!("[deprecated] [cs::x] [deprecated({})] struct R{i} {{}}\n", lit(text)),
         _ => format!("struct S{i} {{}}\n"),
@@ -323,7 +326,7 @@ fn case(cx: &mut CaseCtx, input: Input) -> CaseResult {
     };
     let tabs = pick(&mut u, 3) == 0;
     let crlf = pick(&mut u, 4) == 0;
-    const NAMES: [&str; 6] = ["a.slice", "with space.slice", "quo\"te.slice", "ünï中.slice", "sub dir/b.slice", "per%cent.slice"];
+    const NAMES: [&str; 7] = ["a.slice", "with space.slice", "quo\"te.slice", "ünï中.slice", "sub dir/b.slice", "per%cent.slice", "back\\slash.slice"];
     let nfiles = 1 + pick(&mut u, 3);
     let cross_file_note = nfiles >= 2 && matches!(bundle, 0 | 1) && pick(&mut u, 3) == 0;
     cx.label_if(cross_file_note, "note-in-another-file");
